@@ -49,6 +49,8 @@ def regress_cases(pid):
 
 
 def run_shard_inproc(mod, tier, idx, n):
+    import gc
+    gc.disable()  # collections happen at safe points only (Recorder.case / drive), see common.drive
     rec = Recorder(mod.PID)
     known = KnownFindings(mod.PID)
     outcomes = mod.run_shard(tier, idx, n, rec, known)
@@ -128,8 +130,18 @@ def main(argv=None):
                     cmd = [sys.executable, '-m', 'vlib.run', pid, '--tier', args.tier, '--shard', f'{i}/{n}',
                            '--shard-out', str(out)]
                     procs.append((i, out, subprocess.Popen(cmd, cwd=str(common.VERIF))))
+                budget = time.time() + (1800 if args.tier == 'quick' else 4 * 3600)
                 for i, out, p in procs:
-                    p.wait()
+                    try:
+                        p.wait(timeout=max(1, budget - time.time()))
+                    except subprocess.TimeoutExpired:
+                        p.kill()
+                        p.wait()
+                        o = Outcome()
+                        o.harness_error = (None, f'shard {i} exceeded the wall-clock budget and was killed '
+                                                 f'(inconclusive, not a verdict)')
+                        outcomes.append(o)
+                        continue
                     if not out.exists():
                         o = Outcome()
                         o.harness_error = (None, f'shard {i} died with exit status {p.returncode}')
